@@ -199,6 +199,47 @@ func lexExtras(c *Ctx, nRandom int, f func(s string)) {
 	for _, s := range []string{"/**/", "/*/", "/*/*/", "/* */ */", "/*", "/* ", "/*\n*/", "/* -- */", "--", "-- /*", "--\n", "#", "#\n#", "//", "// x\n/", "/ /", "- -", "a--b", "a-- b\nc", "a//b", "a/ /b", "a#b\nc", "a/*b*/c", "a /*b*/ /*c*/ d", "/*a*//*b*/", "/***/", "/**/*/", "/*/ */", "--/*\n*/", "/*--*/", "'/*'", "\"--\"", "`#`", "a./*c*/b", "a. --c\n b", "1/*c*/.5", "a/**/.5", "a.\n5", "a . 5", "a.5 .6", "a.b.1e5.0x", "a.`b`.c", "a.select", "a.SELECT.from", "a. select", "(a).1", "f().x", "a[0].1", "@p.1", "?.1", "? .x", "NULL.1", "1.x", "select.x", "select.1", "END.x", "*.1", ". 1", ".a", "..a", "a..b", "a...b", "a.b..c"} {
 		emit(s)
 	}
+	// token length sweep: every token and trivia shape with a body of every length 0..L (block-wise fast paths,
+	// buffers and size thresholds sit at lengths no short enumeration reaches), followed by a tail in which the same
+	// terminator occurs again, so a missed terminator swallows tokens instead of failing
+	{
+		L := c.Pick(300, 2100)
+		shapes := [][2]string{
+			{"/*", "*/ x /* y */ z"}, {"--", "\nx -- y\nz"}, {"#", "\nx # y\nz"}, {"//", "\nx // y\nz"},
+			{"'", "' x 'y' z"}, {"\"", "\" x \"y\" z"}, {"`", "` x `y` z"}, {"'''", "''' x '''y''' z"},
+			{"r\"\"\"", "\"\"\" x \"\"\"y\"\"\" z"}, {"b'", "' x b'y' z"}, {"rb'", "' x 'y' z"},
+			{"a", " x y"}, {"1", " 2 3"}, {"0x", " 0x1 z"}, {"1.", "e1 .5 z"}, {"@", " @y z"}, {"x", "x.1 z"},
+		}
+		fillers := []string{"a", "*", " ", "1"}
+		lasts := []string{"", "*", "/", "\\", "\n"}
+		nsweep := 0
+		for n := 0; n <= L; n++ {
+			for _, sh := range shapes {
+				for _, fl := range fillers {
+					body := strings.Repeat(fl, n)
+					for _, la := range lasts {
+						b := body
+						if la != "" {
+							if n == 0 {
+								continue
+							}
+							b = body[:n-1] + la
+						}
+						emit(sh[0] + b + sh[1])
+						emit(" x " + sh[0] + b + sh[1])
+						nsweep += 2
+					}
+				}
+			}
+			// whitespace runs of every length between two tokens
+			for _, ws := range []string{" ", "\n", "\t", "\r\n"} {
+				emit("a" + strings.Repeat(ws, n) + "b /*c*/ d")
+				nsweep++
+			}
+		}
+		c.Count("token_length_sweep", int64(nsweep))
+		c.Res.Exhaustive[fmt.Sprintf("token_and_trivia_shapes_body_length_0..%d", L)] = true
+	}
 	// every byte value between two tokens, with and without blanks around it
 	for b := 0; b < 256; b++ {
 		x := string([]byte{byte(b)})
